@@ -495,6 +495,15 @@ pub fn run_c10_gate(ctx: &Ctx) {
     gate!("fn(&non-ascii)->bool", true, b9, fn(&Größe) -> bool, |v: bool| b9(&Größe(1)) == v);
     gate!("fn(non-ascii,(non-ascii,non-ascii))->bool", true, b10, fn(Größe, (Länge, Länge)) -> bool, |v: bool| b10(Größe(1), (Länge(2), Länge(3))) == v);
     gate!("fn(&non-ascii)->non-ascii", false, n16, fn(&Größe) -> Länge, |_v: bool| true);
+    // wrappers around bool are not bool
+    #[inline(never)] fn n17() -> std::task::Poll<bool> { std::task::Poll::Ready(std::hint::black_box(false)) }
+    #[inline(never)] fn n18() -> Option<bool> { std::hint::black_box(Some(false)) }
+    #[inline(never)] fn n19() -> (bool,) { (std::hint::black_box(false),) }
+    #[inline(never)] fn n20() -> std::sync::atomic::AtomicBool { std::sync::atomic::AtomicBool::new(false) }
+    gate!("fn()->Poll<bool>", false, n17, fn() -> std::task::Poll<bool>, |_v: bool| true);
+    gate!("fn()->Option<bool>", false, n18, fn() -> Option<bool>, |_v: bool| true);
+    gate!("fn()->(bool,)", false, n19, fn() -> (bool,), |_v: bool| true);
+    gate!("fn()->AtomicBool", false, n20, fn() -> std::sync::atomic::AtomicBool, |_v: bool| true);
     gate!("fn()->bool", true, b0, fn() -> bool, |v: bool| b0() == v);
     gate!("fn(i32,&u8)->bool", true, b1, fn(i32, &u8) -> bool, |v: bool| b1(1, &2) == v);
     gate!("unsafe-fn()->bool", true, b2, unsafe fn() -> bool, |v: bool| unsafe { b2() } == v);
